@@ -729,12 +729,35 @@ def gen_conc_cases(rng, quick, stats):
         bump(stats, "conc_cases")
         bump(stats, "conc_batches", len(batches))
         bump(stats, "conc_threads_%d" % threads)
+    # batches of 400-700 KiB next to small ones: while one write is in progress several appenders
+    # queue up and the write core's can_batch REFUSES (two big ones exceed the 1 MiB batch limit), so
+    # the leader must stop at the first waiter that does not fit (seeded change C12-r2-1 skipped it)
+    for i in range(6 if quick else 40):
+        threads = rng.range(3, 6)
+        per = rng.range(3, 5)
+        nb = threads * per
+        batches = []
+        nbig = 0
+        for b in range(nb):
+            es = [Ent.rand(rng, "p", rng.range(1, 16), b, rng.choice([0, 10, 100]))]
+            if rng.chance(3, 5):
+                target = rng.range(400, 700) * 1024
+                es += [Ent.rand(rng, "p", 8, b, 32000) for _ in range(target // 32050)]
+                nbig += 1
+            else:
+                es += [small_entry(rng) for _ in range(rng.below(3))]
+            batches.append(",".join(e.spec() for e in es))
+        out.append(ConcCase("conc %d wb=%d | %s" % (threads, rng.choice([4096, 2097152]), ";".join(batches)), "concbig%d" % i, threads, nb))
+        bump(stats, "conc_big_cases")
+        bump(stats, "conc_big_batches", nbig)
     return out
 
 
 def check_conc(c, o, allow_fsync_failed=False):
     """each call Ok; the file is a concatenation of whole batches, each exactly once; per-thread order kept"""
     bad = []
+    if o == "HANG":
+        return [("append-never-returned", "the case did not finish: some append call never returned")]
     if not o or o.startswith("HARNESS-PANIC"):
         return [("harness-panic", o or "")]
     head, tail = o.split(" | ", 1)
@@ -742,7 +765,9 @@ def check_conc(c, o, allow_fsync_failed=False):
     m = re.match(r"conc (\d+) ", c.line)
     threads = int(m.group(1))
     nb = len(res)
-    if any(r != "ok" and not (allow_fsync_failed and r == "err:corruption-fsync-failed") for r in res):
+    # with an injected fdatasync failure: the calls the failed sync was for get fsync-failed, every
+    # later one is refused (log poisoned, b7cac52) or gets fsync-failed; none of them is acknowledged
+    if any(r != "ok" and not (allow_fsync_failed and r in ("err:corruption-fsync-failed", "err:corruption-log-poisoned")) for r in res):
         bad.append(("append-not-ok", " ".join(sorted(set(res)))))
     d = dict(kv.split("=", 1) for kv in tail.split())
     if d.get("o") != "end":
@@ -750,8 +775,10 @@ def check_conc(c, o, allow_fsync_failed=False):
     if d.get("decomposed") != "yes":
         bad.append(("batch-torn-or-duplicated", tail))
     order = [int(x) for x in d.get("order", "").split(",") if x]
-    if sorted(order) != list(range(nb)):
-        bad.append(("batch-missing-or-duplicated", "order=%s of %d" % (d.get("order"), nb)))
+    # a refused append (log poisoned) must leave no trace in the file; every other batch is there once
+    expect_in_file = [b for b, r in enumerate(res) if r != "err:corruption-log-poisoned"]
+    if sorted(order) != expect_in_file:
+        bad.append(("batch-missing-or-duplicated", "order=%s, expected exactly the batches %s" % (d.get("order"), expect_in_file if len(expect_in_file) != nb else "0..%d" % (nb - 1))))
     pos = {b: k for k, b in enumerate(order)}
     for t in range(threads):
         mine = [b for b in range(t, nb, threads) if b in pos]
@@ -849,11 +876,22 @@ def strace_durability(chk, hxbin, rng, quick):
         line = "conc %d wb=%d | %s" % (threads, rng.choice([64, 4096, 2097152]), ";".join(",".join(e.spec() for e in es) for es in batches))
         d = os.path.join(chk.work, "strace%d" % run)
         strace_one(hxbin, line, d, info)
-        if run % 3 == 0:
-            # the same case with one fdatasync made to fail (EIO): nothing that was not covered by a
-            # sync BEFORE the failure may be acknowledged afterwards
-            info["fault_injected_runs"] = info.get("fault_injected_runs", 0) + 1
-            strace_one(hxbin, line, d + "f", info, inject_when=rng.range(1, 4))
+    # fault injection: 4-8 appenders, the K-th fdatasync fails with EIO after being held for a while (so
+    # that other appenders that already passed the poison check pile up behind it in the fsync queue);
+    # no append may be acknowledged after that unless a sync that completed BEFORE the failure covers
+    # its frame (a sync after a failed one covers nothing)
+    for run in range(6 if quick else 30):
+        threads = rng.range(4, 8)
+        nb = threads * rng.range(6, 10)
+        batches = []
+        for b in range(nb):
+            es = [Ent.rand(rng, "p", rng.range(1, 16), b, rng.choice([0, 10, 100, 3000]))]
+            es += [small_entry(rng) for _ in range(rng.below(2))]
+            batches.append(es)
+        line = "conc %d wb=%d | %s" % (threads, rng.choice([4096, 2097152]), ";".join(",".join(e.spec() for e in es) for es in batches))
+        d = os.path.join(chk.work, "stracef%d" % run)
+        info["fault_injected_runs"] = info.get("fault_injected_runs", 0) + 1
+        strace_one(hxbin, line, d, info, inject_when=[2, 2, 3, 2, 1, 3][run % 6])
     return info
 
 
@@ -890,10 +928,14 @@ def _strace_one(hxbin, line, d, info, inject_when=None):
         os.makedirs(d, exist_ok=True)
         with open(os.path.join(d, "in"), "w") as fh:
             fh.write(line + "\n")
-        inj = "" if inject_when is None else " -e inject=fdatasync:error=EIO:when=%d" % inject_when
+        inj = "" if inject_when is None else " -e inject=fdatasync:error=EIO:delay_enter=30000:when=%d" % inject_when
         cmd = "C12_KEEP=%s strace -f -qq -o %s/trace -e trace=write,pwrite64,writev,fdatasync,fsync,openat%s %s < %s/in > %s/out" % (d, d, inj, hxbin, d, d)
-        rc, out = vlib.sh(cmd, timeout=600)
+        rc, out = vlib.sh(cmd, timeout=120)
         info["runs"] += 1
+        if rc == 124:
+            vlib.sh("pkill -f %s/trace" % d)
+            info["bad"].append(("append-never-returned", "the case did not finish under strace", line))
+            return
         try:
             res = open(os.path.join(d, "out")).read().strip()
             data = open(os.path.join(d, "conc.log"), "rb").read()
@@ -981,5 +1023,8 @@ def _strace_one(hxbin, line, d, info, inject_when=None):
             if covered < need:
                 info["bad"].append(("ack-before-durable", "batch %d ends at %d, fdatasyncs completed before its acknowledgement cover %d bytes" % (b, need, covered), line))
         n_ok = sum(1 for r in res.split(" | ", 1)[0].split() if r == "ok")
+        if inject_when is not None and not sync_failed and n_ok != nb:
+            # the injection point was never reached: a fault-free run, so nothing may err
+            info["bad"].append(("append-not-ok", "no fdatasync failed, yet: " + " ".join(sorted(set(res.split(" | ", 1)[0].split()))), line))
         if len(acks) != n_ok:
             info["bad"].append(("missing-acks", "%d acknowledgements for %d Ok results" % (len(acks), n_ok), line))
